@@ -32,7 +32,7 @@ def ctok(c):
 
 
 RGB = {'black': (0, 0, 0), 'white': (255, 255, 255), 'red': (255, 0, 0), 'darkblue': (0, 0, 139), 'yellow': (255, 255, 0),
-       'green': (0, 128, 0), 'navy': (0, 0, 128)}
+       'green': (0, 128, 0), 'navy': (0, 0, 128), 'aliceblue': (240, 248, 255), 'antiquewhite': (250, 235, 215)}
 
 
 def rgba_of(c):
@@ -82,7 +82,12 @@ def run(ctx):
                   dict(dark=(10, 20, 30), light=(250, 240, 230)), dict(dark='white', light='black'), dict(quiet_zone='black'),
                   dict(finder_dark='red', data_dark='green'), dict(finder_dark='red', data_dark='green', light=None),
                   dict(finder_dark='red', data_dark='green', timing_dark='navy', alignment_dark='yellow', format_dark='darkblue', quiet_zone='#eee'),
-                  dict(dark=None, light=None)]
+                  dict(dark=None, light=None),
+                  # the colour the writer would pick as stand-in for "transparent" (first web colour not in the palette) IS the other colour:
+                  # name, hex and tuple spellings of aliceblue (240, 248, 255), then of the next candidate antiquewhite
+                  dict(dark='aliceblue', light=None), dict(dark='#F0F8FF', light=None), dict(dark=(240, 248, 255), light=None),
+                  dict(dark=None, light='aliceblue'), dict(dark='antiquewhite', light=None),
+                  dict(finder_dark='aliceblue', data_dark='antiquewhite', light=None)]
     pam_colors = [dict(), dict(light=None), dict(dark='white', light='black'), dict(dark='white', light=None), dict(dark='red'),
                   dict(dark='red', light=None), dict(dark=(10, 20, 30), light=(100, 100, 100)), dict(dark='#1234', light='#fff'), dict(dark='#00000080')]
     for sym in syms:
